@@ -130,7 +130,8 @@ def _work_rand(args):
                 rarg = restr if restr else None
                 if restr and tid % 2:
                     rarg = np.array(restr, dtype=np.intp if tid % 4 == 1 else np.int64)
-                calc = Chi2Calculator(fixed * g, build, rarg)
+                with common.caller_state(tid):
+                    calc = Chi2Calculator(fixed * g, build, rarg)
                 if isinstance(rarg, np.ndarray):
                     rarg[...] = 0
                 mbuf = np.zeros((nm, 3))        # one buffer refilled in place: the value follows the contents, not the object
